@@ -25,6 +25,9 @@ def main(argv):
     if argv and argv[0] == "--wave2":
         wave, srcroot, wtroot = "w2-", "/tmp/seed2", "/tmp/wt2"
         argv = argv[1:]
+    elif argv and argv[0] == "--wave4":
+        wave, srcroot, wtroot = "w4-", "/tmp/seed5", "/tmp/wt5"
+        argv = argv[1:]
     elif argv and argv[0] == "--wave3":
         wave, srcroot, wtroot = "w3-", "/tmp/seed4", "/tmp/wt4"
         argv = argv[1:]
